@@ -31,6 +31,7 @@ def one(sid, tier, owner_only):
         return sid, None, p.stdout[-800:]
     res = json.loads(m.group(1))
     fired = sorted(k for k, v in res["checks"].items() if v["rc"] == 1)
+    previous = (meta.get("checks_run"), meta.get("caught_by_owner"))
     meta["checks_run"] = {
         "tier": tier,
         "fired": fired,
@@ -43,6 +44,9 @@ def one(sid, tier, owner_only):
     if not owner_only:
         meta["all_checks_run"] = {"fired": fired, "verif_commit": meta["checks_run"]["verif_commit"], "tier": tier}
     meta["caught_by_owner"] = prop in fired
+    if not owner_only and prop not in fired and previous[1]:
+        # a (possibly scaled-down) run of all checks does not take back what a full run of the own check showed
+        meta["checks_run"], meta["caught_by_owner"] = previous
     wr = [w for w in meta.get("what_ran", []) if not w.startswith("tools/mutrun.py")]
     wr.append("tools/mutrun.py %s patch.diff --tier %s %s" % (sid, tier, prop if owner_only else "all"))
     meta["what_ran"] = wr
